@@ -184,6 +184,7 @@ func checkC03(c *runCtx) {
 		{"honest 1x1, full BFS, ledger attached", "pair", pairCfg{KindsA: []string{"host"}, KindsB: []string{"host"}, Ticks: 2, Drops: 1, Dups: 1, Monitor: true}},
 		{"honest 2x2, D<=2, ledger attached", "pair", pairCfg{KindsA: []string{"host", "host"}, KindsB: []string{"host", "host"}, Ticks: 3, Drops: 2, Dups: 2, Dev: 2, Monitor: true}},
 		{"honest 2x1 srflx + NAT, D<=2, ledger attached", "pair", pairCfg{KindsA: []string{"nat", "srflx"}, KindsB: []string{"host"}, Ticks: 3, Drops: 2, Dups: 2, Dev: 2, Monitor: true}},
+		{"honest 1x1 trickled candidates, full BFS (reordering only), ledger attached", "pair", pairCfg{KindsA: []string{"host"}, KindsB: []string{"host"}, Trickle: true, Ticks: 2, Monitor: true}},
 		{"honest 1x1 lite controlled peer, full BFS, ledger attached", "pair", pairCfg{KindsA: []string{"host"}, KindsB: []string{"host"}, LiteB: true, Ticks: 2, Drops: 1, Dups: 1, Monitor: true}},
 	}
 	if !c.quick() {
